@@ -152,6 +152,7 @@ public:
             m_unbuf_recv_cv.notify_all();
         } else {
             // Buffered: wake up all waiting threads via semaphore
+            std::atomic_thread_fence(std::memory_order_seq_cst);
             PHOTON_VERIF_SP(PHOTON_VERIF_SP_ATOMIC, this);
             int senders = m_senders_waiting.load(std::memory_order_acquire);
             int receivers = m_receivers_waiting.load(std::memory_order_acquire);
@@ -268,6 +269,7 @@ private:
             // Try to push (lock-free)
             if (m_queue->read_available() < m_capacity && m_queue->push(ptr)) {
                 // Notify waiting receiver
+                std::atomic_thread_fence(std::memory_order_seq_cst);
                 PHOTON_VERIF_SP(PHOTON_VERIF_SP_ATOMIC, this);
                 if (m_receivers_waiting.load(std::memory_order_acquire) > 0) {
                     m_recv_sem.signal(1);
@@ -284,6 +286,14 @@ private:
 
             PHOTON_VERIF_SP(PHOTON_VERIF_SP_ATOMIC, this);
             m_senders_waiting.fetch_add(1, std::memory_order_acq_rel);
+            // re-check after registering: a receiver or close() that ran between our
+            // failed push and the registration saw no waiter and signalled nobody
+            std::atomic_thread_fence(std::memory_order_seq_cst);
+            if (m_closed.load(std::memory_order_acquire) ||
+                m_queue->read_available() < m_capacity) {
+                m_senders_waiting.fetch_sub(1, std::memory_order_acq_rel);
+                continue;
+            }
             int ret = m_send_sem.wait(1, timeout.timeout_us());
             m_senders_waiting.fetch_sub(1, std::memory_order_acq_rel);
 
@@ -302,6 +312,7 @@ private:
                 value = std::move(*ptr);
                 delete ptr;
                 // Notify waiting sender
+                std::atomic_thread_fence(std::memory_order_seq_cst);
                 PHOTON_VERIF_SP(PHOTON_VERIF_SP_ATOMIC, this);
                 if (m_senders_waiting.load(std::memory_order_acquire) > 0) {
                     m_send_sem.signal(1);
@@ -320,6 +331,13 @@ private:
 
             PHOTON_VERIF_SP(PHOTON_VERIF_SP_ATOMIC, this);
             m_receivers_waiting.fetch_add(1, std::memory_order_acq_rel);
+            // re-check after registering: a sender or close() that ran between our
+            // failed pop and the registration saw no waiter and signalled nobody
+            std::atomic_thread_fence(std::memory_order_seq_cst);
+            if (m_closed.load(std::memory_order_acquire) || !m_queue->empty()) {
+                m_receivers_waiting.fetch_sub(1, std::memory_order_acq_rel);
+                continue;
+            }
             int ret = m_recv_sem.wait(1, timeout.timeout_us());
             m_receivers_waiting.fetch_sub(1, std::memory_order_acq_rel);
 
